@@ -17,7 +17,8 @@
 (*   "writers"  Unmarshal / SetNode / UnmarshalSetRequest into distinct     *)
 (*              trees sharing the schema and the input messages,            *)
 (*   "cache"    compilePattern: RLock, look up, RUnlock; on a miss compile, *)
-(*              Lock, store, Unlock                                         *)
+(*              Lock, store, Unlock -- for each of the two pattern flavours *)
+(*              (RE2 and POSIX), which have a cache and a mutex each        *)
 (* and checks NoRace (no two overlapping accesses to one location, one of   *)
 (* them a write, unless both hold the mutex appropriately) and, for the     *)
 (* cache, that every call returns the compiled pattern whatever the         *)
@@ -49,14 +50,22 @@ Loc(p, obj) == IF Scenario = "writers" /\ obj \in {"tree", "dest"} THEN <<obj, p
 
 OpsOf(p) == IF Scenario = "readers" THEN {"GetNode", "Validate", "Marshal7951", "Diff"}
             ELSE IF Scenario = "writers" THEN {"Unmarshal", "SetNode", "UnmarshalSetRequest"}
-            ELSE {"compilePattern"}
+            ELSE {"compilePattern:re2", "compilePattern:posix"}
+
+Flavours == {"re2", "posix"}
+IsCP(o) == o \in {"compilePattern:re2", "compilePattern:posix"}
+FlavourOf(o) == IF o = "compilePattern:posix" THEN "posix" ELSE "re2"
+CacheObj(f) == "recache:" \o f
+IsCacheObj(x) == x \in {CacheObj(f) : f \in Flavours}
+FlavourOfObj(x) == IF x = CacheObj("posix") THEN "posix" ELSE "re2"
 
 \* the accesses of one operation, in program order: <<kind, object>>
 Accesses(op) ==
-  IF op = "compilePattern"
-  THEN <<<<"rlock", "recache">>, <<"r", "recache">>, <<"runlock", "recache">>,          \* look up under the read lock
-         <<"compile", "local">>,                                                       \* on a miss: compile, no lock held
-         <<"lock", "recache">>, <<"w", "recache">>, <<"unlock", "recache">>>>           \* store under the write lock
+  IF IsCP(op)
+  THEN LET c == CacheObj(FlavourOf(op)) IN
+       <<<<"rlock", c>>, <<"r", c>>, <<"runlock", c>>,          \* look up under the flavour's read lock
+         <<"compile", "local">>,                                 \* on a miss: compile, no lock held
+         <<"lock", c>>, <<"w", c>>, <<"unlock", c>>>>            \* store under the flavour's write lock
   ELSE LET rs == ReadSet(op) \ WriteSet(op)
            R == CHOOSE s \in [1..Cardinality(rs) -> rs] : \A i, j \in 1..Cardinality(rs) : i # j => s[i] # s[j]
            ws == WriteSet(op)
@@ -66,8 +75,8 @@ Accesses(op) ==
 VARIABLES op,       \* op[p]: the operation process p runs ("-" before it chose)
           pc,       \* pc[p]: index of the next access
           inflight, \* set of <<p, kind, loc>>: accesses that have begun and not ended
-          rwlock,   \* [readers : SUBSET Procs, writer : Procs \cup {"none"}]
-          cache,    \* the regexp cache: "empty" or "compiled"
+          rwlock,   \* per flavour: [readers : SUBSET Procs, writer : Procs \cup {"none"}]
+          cache,    \* per flavour, the regexp cache: "empty" or "compiled"
           hit,      \* hit[p]: whether p's lookup found the pattern
           result,   \* result[p]: what compilePattern returned
           sched     \* history of cache steps, for emission (not in the VIEW)
@@ -75,8 +84,8 @@ vars == <<op, pc, inflight, rwlock, cache, hit, result, sched>>
 
 Init ==
   /\ op = [p \in Procs |-> "-"] /\ pc = [p \in Procs |-> 1]
-  /\ inflight = {} /\ rwlock = [readers |-> {}, writer |-> "none"]
-  /\ cache = "empty" /\ hit = [p \in Procs |-> FALSE] /\ result = [p \in Procs |-> "-"]
+  /\ inflight = {} /\ rwlock = [f \in Flavours |-> [readers |-> {}, writer |-> "none"]]
+  /\ cache = [f \in Flavours |-> "empty"] /\ hit = [p \in Procs |-> FALSE] /\ result = [p \in Procs |-> "-"]
   /\ sched = << >>
 
 Choose(p) ==
@@ -91,7 +100,8 @@ Done(p) == op[p] # "-" /\ pc[p] > Len(Accesses(op[p]))
 Begin(p) ==
   /\ op[p] # "-" /\ ~Done(p) /\ Cur(p)[1] \in {"r", "w"}
   /\ ~\E a \in inflight : a[1] = p
-  /\ (Cur(p)[2] = "recache" /\ Cur(p)[1] = "w" => rwlock.writer = p)      \* program order guarantees the lock is held
+  /\ (IsCacheObj(Cur(p)[2]) /\ Cur(p)[1] = "w" => rwlock[FlavourOfObj(Cur(p)[2])].writer = p)   \* the store holds the write lock of ITS cache
+  /\ (IsCacheObj(Cur(p)[2]) /\ Cur(p)[1] = "r" => p \in rwlock[FlavourOfObj(Cur(p)[2])].readers)  \* the lookup holds the read lock of ITS cache
   /\ inflight' = inflight \cup {<<p, Cur(p)[1], Loc(p, Cur(p)[2])>>}
   /\ UNCHANGED <<op, pc, rwlock, cache, hit, result, sched>>
 
@@ -99,28 +109,29 @@ End(p) ==
   /\ \E a \in inflight : a[1] = p
   /\ inflight' = {a \in inflight : a[1] # p}
   /\ pc' = [pc EXCEPT ![p] = @ + 1]
-  /\ IF Cur(p)[2] = "recache" /\ Cur(p)[1] = "r"
-     THEN hit' = [hit EXCEPT ![p] = (cache = "compiled")] /\ UNCHANGED cache
-     ELSE IF Cur(p)[2] = "recache" /\ Cur(p)[1] = "w"
-          THEN cache' = "compiled" /\ UNCHANGED hit
+  /\ IF IsCacheObj(Cur(p)[2]) /\ Cur(p)[1] = "r"
+     THEN hit' = [hit EXCEPT ![p] = (cache[FlavourOfObj(Cur(p)[2])] = "compiled")] /\ UNCHANGED cache
+     ELSE IF IsCacheObj(Cur(p)[2]) /\ Cur(p)[1] = "w"
+          THEN cache' = [cache EXCEPT ![FlavourOfObj(Cur(p)[2])] = "compiled"] /\ UNCHANGED hit
           ELSE UNCHANGED <<cache, hit>>
-  /\ sched' = IF Cur(p)[2] = "recache" THEN Append(sched, <<p, Cur(p)[1]>>) ELSE sched
+  /\ sched' = IF IsCacheObj(Cur(p)[2]) THEN Append(sched, <<p, Cur(p)[1], FlavourOf(op[p])>>) ELSE sched
   /\ UNCHANGED <<op, rwlock, result>>
 
 \* lock steps and the compile step are atomic
 LockStep(p) ==
   /\ op[p] # "-" /\ ~Done(p) /\ ~\E a \in inflight : a[1] = p
-  /\ LET k == Cur(p)[1] IN
+  /\ LET k == Cur(p)[1]
+         f == FlavourOf(op[p]) IN
      /\ k \in {"rlock", "runlock", "lock", "unlock", "compile"}
-     /\ CASE k = "rlock"   -> rwlock.writer = "none" /\ rwlock' = [rwlock EXCEPT !.readers = @ \cup {p}]
-          [] k = "runlock" -> rwlock' = [rwlock EXCEPT !.readers = @ \ {p}]
-          [] k = "lock"    -> rwlock.writer = "none" /\ rwlock.readers = {} /\ rwlock' = [rwlock EXCEPT !.writer = p]
-          [] k = "unlock"  -> rwlock' = [rwlock EXCEPT !.writer = "none"]
+     /\ CASE k = "rlock"   -> rwlock[f].writer = "none" /\ rwlock' = [rwlock EXCEPT ![f].readers = @ \cup {p}]
+          [] k = "runlock" -> rwlock' = [rwlock EXCEPT ![f].readers = @ \ {p}]
+          [] k = "lock"    -> rwlock[f].writer = "none" /\ rwlock[f].readers = {} /\ rwlock' = [rwlock EXCEPT ![f].writer = p]
+          [] k = "unlock"  -> rwlock' = [rwlock EXCEPT ![f].writer = "none"]
           [] k = "compile" -> UNCHANGED rwlock
      \* a hit returns right after the lookup: skip compile and store
      /\ pc' = [pc EXCEPT ![p] = IF k = "runlock" /\ hit[p] THEN Len(Accesses(op[p])) + 1 ELSE @ + 1]
      /\ result' = [result EXCEPT ![p] = IF (k = "runlock" /\ hit[p]) \/ k = "unlock" THEN "compiled" ELSE @]
-     /\ sched' = IF k = "compile" THEN sched ELSE Append(sched, <<p, k>>)
+     /\ sched' = IF k = "compile" THEN sched ELSE Append(sched, <<p, k, f>>)
   /\ UNCHANGED <<op, inflight, cache, hit>>
 
 Next == \E p \in Procs : Choose(p) \/ Begin(p) \/ End(p) \/ LockStep(p)
@@ -136,10 +147,13 @@ Race == \E a, b \in inflight : a[1] # b[1] /\ a[3] = b[3] /\ "w" \in {a[2], b[2]
 NoRace == ~Race
 
 \* the mutex discipline: a writer excludes everyone
-LockOK == rwlock.writer # "none" => rwlock.readers = {}
+LockOK == \A f \in Flavours : rwlock[f].writer # "none" => rwlock[f].readers = {}
 
 \* schedule independence of the cache: whoever finishes got the compiled pattern
-CacheResults == \A p \in Procs : Done(p) /\ op[p] = "compilePattern" => result[p] = "compiled"
+CacheResults == \A p \in Procs : Done(p) /\ IsCP(op[p]) => result[p] = "compiled"
+
+\* the two flavours never share a map: a pattern compiled for one flavour is not served to the other
+CachesSeparate == \A p \in Procs : (IsCP(op[p]) /\ hit[p]) => cache[FlavourOf(op[p])] = "compiled"
 
 AllDone == \A p \in Procs : Done(p)
 
